@@ -45,6 +45,18 @@ CHECKS = {
          "For each API entry point that accepts or returns a Go array, map or sequence the probe writes through one side at every position and observes the other, sizes 0..5; self-operand bulk operations compared with a copy. The table's completeness is checked by reflection at run time.",
          "Association objects shared by a Catalog's views are by design; class functions are covered by C15/C16.",
          "DESIGN.md 6/C18"),
+ "C07": ("law monitor over structured value universes + generated triples (runtime monitoring)",
+         "All pairs (both orders, three evaluations: same collator, after unrelated calls, fresh collator) and all triples of corner universes for every static type and for `any` closed under the container kinds to depth 3 are actually ranked by the real collator and checked for reflexivity, mirror symmetry, transitivity, agreement with an independent natural order, stability; PRNG-generated related triples with rebuilt operands. Exhaustive over the corner universes, sampled beyond.",
+         "For NaN, complex numbers and mixed dynamic types only the preorder laws are required; structs/channels/functions and mixed static element types are outside the universe.",
+         "DESIGN.md 6/C07"),
+ "C08": ("law monitor over structured universes + rebuilt copies, single-point mutations and a cyclic battery (runtime monitoring)",
+         "Same universes as C07 for equivalence laws and compare<=>rank-equal<=>independent structural equality; generated recipes are rebuilt (must compare equal) and mutated at single points (must compare unequal); rings of self-containing collections (length 1..3, all kinds, with siblings) must end with the depth-limit panic and leave the collator usable. Sampled executions under oracles.",
+         "The depth-limit message text identifies the documented panic; fatal errors are caught by the child-process workers.",
+         "DESIGN.md 6/C08"),
+ "C20": ("differential monitor: module-level constructors vs class-level constructors and the parser over a generated form x type matrix (runtime monitoring)",
+         "Generated cells of the kind x argument-form x element-type matrix (sizes 0..20, notation absent/first/last, inline and multi-line sources, foreign sequence contexts) are executed and compared by kind, contents, order and capacity with the class-level constructor on the same data and with ParseSource. Sampled executions under an oracle.",
+         "Undocumented forms may behave as they like; an Array may reject an empty argument.",
+         "DESIGN.md 6/C20"),
 }
 NOT_YET = "check not built yet in this round (runtime-monitoring design in DESIGN.md section 6)"
 
